@@ -18,6 +18,7 @@ pub mod rewrite;
 pub mod gen03;
 pub mod gen04;
 pub mod gen05;
+pub mod gen11;
 pub mod pmodel;
 pub mod fmodel;
 pub mod gen06;
